@@ -40,7 +40,7 @@ SHARDS = {"quick": 4, "thorough": 16}
 RULE = (
     "(a) complete enumeration, per catalogue operation (17 operations), of (k-th call-out, exception class in {RuntimeError, TypeError, "
     "KeyboardInterrupt, custom BaseException}) for every k up to the dry-run count; (b) Hypothesis histories of 3..20 operations from a "
-    "26-operation alphabet. After each, 15 probes. Non-trivial (a) = the fault fired while jaxtyping held transient state (a context "
+    "27-operation alphabet. After each, 15 probes. Non-trivial (a) = the fault fired while jaxtyping held transient state (a context "
     "pushed, the flatten-mode flag set or a leaf label set; read from the private storage at the moment of the fault, for classification "
     "only); non-trivial (b) = history containing a failing or raising check or a decoration sharing an annotation object; distinct by "
     "(operation, k, exception) resp. operation list."
@@ -526,7 +526,7 @@ def _gen_ann(ann):
     with warnings.catch_warnings():
         warnings.simplefilter("ignore")
         h = jaxtyped(gc.checker("typeguard")(g))
-    list(h(np.zeros((2,), dtype="float32")))
+    list(h(np.zeros((2,), dtype="float32")))  # (2,) fits both "2" and a one-axis spec
 
 
 def h_generator_old_pytree():
@@ -540,6 +540,20 @@ def h_generator_old_pytree():
         h = jaxtyped(g)
         h2 = jaxtyped(typechecker=None)(g)
     list(h(1)), list(h2(2))
+
+
+def h_generator_old_inner_outer():
+    """An annotation that EXTENDS another one is a different annotation: whatever the old-style generator support does to
+    the inner one it was given must not change what the extension accepts."""
+    inner = Float[np.ndarray, "c"]
+    outer_before = Shaped[inner, "b"]
+    _gen_ann(inner)
+    outer_after = jaxtyping.Float[inner, "b"]
+    bad = np.zeros((2, 3), dtype="int32")
+    for name, outer in (("built before", outer_before), ("built after", outer_after)):
+        got = (obs.verdict(bad, outer), obs.verdict(np.zeros((2,), dtype="float32"), outer))
+        if got != ("False", "False"):
+            raise Violation("probe", {"history": ["generator-old-inner-outer"]}, f"Dtype[Inner,'b'] ({name} an old-style generator was decorated with Inner) gave {got} for a wrong-dtype / wrong-rank array")
 
 
 def h_resubscribe():
@@ -621,7 +635,7 @@ HISTORY_OPS = {
     "check-pass": h_check_pass, "check-fail": h_check_fail, "check-raise": h_check_raise, "toplevel-check": h_toplevel_check,
     "pytree-pass": h_pytree_pass, "pytree-fail": h_pytree_fail, "pytree-q-misuse": h_pytree_q_misuse, "pytree-unbound-composite": h_pytree_unbound_composite,
     "decorate-shared-typeguard": h_decorate_shared_tg, "decorate-shared-beartype": h_decorate_shared_bt, "decorate-shared-old": h_decorate_shared_old,
-    "generator-old-unpickled": h_generator_old_unpickled, "generator-old-pytree": h_generator_old_pytree, "generator-new-shared": h_generator_new_shared, "generator-old-fresh": h_generator_old_fresh, "generator-old-shared": h_generator_old_shared,
+    "generator-old-unpickled": h_generator_old_unpickled, "generator-old-inner-outer": h_generator_old_inner_outer, "generator-old-pytree": h_generator_old_pytree, "generator-new-shared": h_generator_new_shared, "generator-old-fresh": h_generator_old_fresh, "generator-old-shared": h_generator_old_shared,
     "resubscribe": h_resubscribe, "pickle": h_pickle, "hook": h_hook, "hook-exception": h_hook_exception, "config-roundtrip": h_config_roundtrip,
     "call-ok": h_call_ok, "call-ill": h_call_ill, "call-raises": h_call_raises, "thread-activity": h_thread_activity, "name-format": h_name_format,
 }
